@@ -95,6 +95,39 @@ def kind_of(v):
         return "result:" + v["rd"] if v.get("rd") else "structure"
     return why
 
+def validate_cam(camp):
+    "replay the recorded calls through the pushdown machine (spec/CAM.tla): machine-level clauses"
+    camp.sh.flush()
+    ctx = camp.ctx
+    vs, stats = pipeline.validate(camp.sh.paths, jvms=ctx.jvms, workers=ctx.workers, scratch=ctx.scratch, module="CAM")
+    ctx.add_tlc(stats)
+    return vs
+
+def judge_cam(ctx, camp, verdicts, prefixes):
+    """verdicts of CAM.tla; a violation is a failed clause whose name starts with one of `prefixes`"""
+    sh = camp.sh
+    spec_errors = [v for v in verdicts if v["st"] == "spec-error"]
+    n = 0
+    hits = {}
+    for v in verdicts:
+        if v["st"] != "fail":
+            continue
+        m = sh.meta.get(v["id"], {})
+        for f in v["fails"]:
+            if any(f["clause"].startswith(p) for p in prefixes):
+                n += 1
+                hits[f["clause"]] = hits.get(f["clause"], 0) + 1
+                c = m["case"]
+                ctx.report(f["clause"], {"node": f["node"], "op": c["op"]},
+                           {"kind": "call", "prog": m["prog"], "call": {k: c[k] for k in ("op", "data", "start", "kw", "arg", "flt")},
+                            "recorded": {"events": c["events"], "res": c["res"]}, "verdict": {"clause": f["clause"], "at": f["at"], "node": f["node"]}})
+    ctx.cov["evaluations"] += len(verdicts)
+    ctx.cov["traces_validated_against_impl"] += sum(1 for v in verdicts if v["st"] in ("ok", "fail"))
+    ctx.cov.setdefault("machine_clause_failures", {}).update(hits)
+    if spec_errors:
+        raise tlc.MachineryError("%d TLC evaluation errors in CAM replay, e.g. %s" % (len(spec_errors), spec_errors[0]["why"]))
+    return n
+
 def sig_of_case(v, meta):
     case = meta["case"]
     return {"why": kind_of(v), "op": case["op"], "node": v["exp"]["k"] if v["exp"]["k"] != "-" else v["got"]["k"],
